@@ -445,6 +445,11 @@ func (c16) Case(c *core.Ctx) {
 					cp = map[string]interface{}{"z": "<&>"}
 				}
 			}
+			if i > 0 && r.Intn(8) == 0 {
+				// a nil or empty member still contributes its own encoding (<doc/>, null / {})
+				cp = [](map[string]interface{}){nil, {}}[r.Intn(2)]
+				c.Count("maps-forms:nil-or-empty-member")
+			}
 			mvs = append(mvs, cp)
 			a, _ := mxj.Map(cp).Xml()
 			b, _ := mxj.Map(cp).XmlIndent(prefix, indent)
